@@ -130,9 +130,144 @@ def _plain_args(a):
 
 
 # ---------------------------------------------------------------------------------
+# layer rules (C05 verdict post-condition, traces for C13/C16)
+# ---------------------------------------------------------------------------------
+
+LAYER_RULE_FLUENT = [
+    "based_on", "layers_that", "are_named", "should", "should_only", "should_not",
+    "access_layers_that", "be_accessed_by_layers_that", "access_layers_except_layers_that",
+    "be_accessed_by_layers_except_layers_that", "access_any_layer", "be_accessed_by_any_layer",
+]
+ARCH_FLUENT = ["with_layer", "layer", "containing_modules", "have_modules_with_names_matching"]
+
+
+def snapshot_layers(arch) -> dict:
+    out = {}
+    for name, filters in arch._modules_by_layer_name.items():
+        out[name] = [("regex" if f.identifier_is_regex else "named", f.identifier) for f in filters]
+    return out
+
+
+def snapshot_layer_rule(lr) -> dict | None:
+    """Subject / object layer names are read from the recorded fluent trace; verb, direction
+    and except flag from the lowered module rule's configuration (before evaluation)."""
+    from .monitors import snapshot_rule
+
+    if lr._rule is None or lr._architecture is None:
+        return None
+    inner = snapshot_rule(lr._rule)
+    subjects, objects, phase = [], [], "subject"
+    for name, args, res in trace_of(lr):
+        if res != "ok":
+            continue
+        if name.startswith("access_") or name.startswith("be_accessed_"):
+            phase = "object"
+        elif name == "are_named" and args:
+            x = args[0]
+            (subjects if phase == "subject" else objects).extend(x if isinstance(x, list) else [x])
+    if len(subjects) != 1:
+        return None
+    subject = subjects[0]
+    return {
+        "verb": inner["verb"], "verbs": inner["verbs"], "dir": inner["dir"], "exc": inner["exc"], "anything": inner["anything"],
+        "subject": subject, "objects": objects, "layers": snapshot_layers(lr._architecture),
+    }
+
+
+def _wrap_layer_rule_assert():
+    from pytestarch.query_language.layered_architecture_rule import LayerRule
+
+    from .refmodel import layers as rlayer
+
+    orig = LayerRule.__dict__["assert_applies"]
+
+    @functools.wraps(orig)
+    def assert_applies(self, evaluable):
+        if not HUB.active:
+            return orig(self, evaluable)
+        entry = ["assert_applies", [], None]
+        trace_of(self).append(entry)
+        try:
+            cfg = snapshot_layer_rule(self)
+        except Exception:  # noqa: BLE001
+            cfg = None
+        before = graph_state(evaluable)
+        exc = None
+        try:
+            orig(self, evaluable)
+            outcome, msg, et = "pass", None, None
+        except AssertionError as e:
+            exc, outcome, msg, et = e, "fail", str(e), "AssertionError"
+        except Exception as e:  # noqa: BLE001
+            exc, outcome, msg, et = e, "error", str(e), type(e).__name__
+        entry[2] = "ok" if exc is None else et
+        after = graph_state(evaluable)
+        _purity(before, after, "LayerRule.assert_applies", cfg)
+        ev = Event("LayerRule.assert_applies", cfg or {}, outcome, msg, et, id(evaluable), truth_from_state(before) if before else None)
+        ev.extra["trace"] = list(map(list, trace_of(self)))
+        ev.extra["tag"] = HUB.tag
+        if HUB.keep_log:
+            HUB.log.append(ev)
+        self.__dict__["_pta_last_event"] = ev
+        try:
+            if cfg is not None and ev.truth is not None and "C05" in HUB.judges:
+                _judge_layer_rule(ev, rlayer)
+        except Exception as e:  # noqa: BLE001
+            HUB.acc.mark_inconclusive(f"judge_layer_rule crashed: {type(e).__name__}: {e}")
+        if exc is not None:
+            raise exc
+
+    assert_applies._pta_orig = orig
+    LayerRule.assert_applies = assert_applies
+
+
+def _judge_layer_rule(ev, rlayer) -> None:
+    cfg = ev.cfg
+    mods, imps = ev.truth
+    acc = HUB.acc
+    acc.count("layer_rule_events")
+    if len(cfg["verbs"]) != 1:
+        return
+    ok, why = rlayer.strict_domain(cfg["layers"], cfg, mods)
+    acc.hist("c05_domain", why or "strict")
+    if not ok:
+        return
+    w = {"cfg": cfg, "mods": sorted(mods), "imps": sorted(imps), "message": ev.message}
+    if ev.outcome == "error":
+        HUB.violation("C05", f"exception:{ev.exc_type}:{_layer_situation(cfg)}", f"well-formed layer rule raised {ev.exc_type}", w)
+        return
+    exp = rlayer.evaluate(cfg["layers"], cfg, mods, imps)
+    got = ev.outcome == "pass"
+    acc.count("c05_judged")
+    acc.hist("c05_shape_outcome", f"{rlayer.shape(cfg)}:{ev.outcome}")
+    acc.hist("c05_situation", _layer_situation(cfg))
+    if got != exp:
+        HUB.violation("C05", f"verdict:{rlayer.shape(cfg)}:{'false-pass' if got else 'false-fail'}", f"layer rule {'passed' if got else 'failed'} but the documented layer semantics say {'holds' if exp else 'violated'}", w)
+
+
+def _layer_situation(cfg) -> str:
+    kinds = {n: ("regex" if any(k == "regex" for k, _ in d) else "named") for n, d in cfg["layers"].items()}
+    mentioned = {cfg["subject"], *cfg["objects"]}
+    parts = []
+    if any(kinds[n] == "regex" for n in kinds if n not in mentioned):
+        parts.append("unmentioned-regex-layer")
+    ok = [kinds[o] for o in cfg["objects"]]
+    if "regex" in ok and "named" in ok:
+        parts.append("mixed-regex-named-objects")
+    return "+".join(parts) or "plain"
+
+
+# ---------------------------------------------------------------------------------
 # install
 # ---------------------------------------------------------------------------------
 
 
 def install(hub) -> None:
+    from pytestarch.query_language.layered_architecture_rule import LayeredArchitecture, LayerRule
+
     _wrap_scan()
+    for n in LAYER_RULE_FLUENT:
+        _wrap_fluent(LayerRule, n)
+    for n in ARCH_FLUENT:
+        _wrap_fluent(LayeredArchitecture, n)
+    _wrap_layer_rule_assert()
